@@ -64,7 +64,11 @@ func BuildHistory(t testing.TB, hc HistoryCfg) *History {
 	if hc.Weights != nil {
 		pc.W = *hc.Weights
 	}
+	pc.TolerateReject = true
 	h.P = NewProducer(t, pc)
+	if h.P.Rejected != nil {
+		return h
+	}
 	p := h.P
 	baseW := p.Cfg.W
 	if hc.Replay != nil {
@@ -104,9 +108,10 @@ func BuildHistory(t testing.TB, hc HistoryCfg) *History {
 	h.Txs = append(h.Txs, txs)
 	h.Extras = append(h.Extras, nil)
 	quiet, quietAt := false, 0
+	var churn *Churn
 	quietW := baseW
 	quietW.Vote, quietW.Candidate, quietW.NeoTransfer, quietW.Block, quietW.Payment, quietW.Fault = 0, 0, 0, 0, 0, 0
-	for len(p.Raw) < hc.Blocks {
+	for len(p.Raw) < hc.Blocks && p.Rejected == nil {
 		var ex []*transaction.Transaction
 		for range r.Intn(3) {
 			u := p.Users[r.Intn(len(p.Users))]
@@ -126,8 +131,34 @@ func BuildHistory(t testing.TB, hc HistoryCfg) *History {
 		}
 		txs := p.GenTxs()
 		if quiet && next == quietAt {
-			if tx := p.BlockCandidate(); tx != nil {
+			// exactly one governance-relevant transaction in the quiet epoch
+			var tx *transaction.Transaction
+			switch r.Intn(5) {
+			case 0, 1:
+				tx = p.BlockCandidate()
+			case 2:
+				tx = p.OpVote()
+			case 3:
+				tx = p.OpNeoTransfer()
+			default:
+				tx = p.OpCandidate()
+			}
+			if tx != nil {
 				txs = append(txs, tx)
+			}
+		}
+		// candidate churn script: unvote, unregister (dropped), register again,
+		// vote again, and later let the voter move NEO (which claims its reward).
+		if churn == nil && !quiet && r.Intn(12) == 0 {
+			churn = p.NewChurn()
+		}
+		if churn != nil {
+			tx, done := churn.Next(next)
+			if tx != nil {
+				txs = append(txs, tx)
+			}
+			if done {
+				churn = nil
 			}
 		}
 		p.AddBlock(txs...)
